@@ -35,6 +35,68 @@ func rulesC08(c *Ctx) {
 	digitsC08(c, p.SSAFunc(pd))
 	pureC08(c)
 	slotsC08(c)
+	runeIndexC08(c, p.SSAFunc(pd))
+	// a duration literal node is built anew for every occurrence: a node kept by
+	// the parser and handed out twice is negated in place by the unary minus
+	parseFreshRule(c, "C08.parsefresh")
+}
+
+// runeIndexC08: positions in the rune slice are moved by rune counts.
+func runeIndexC08(c *Ctx, f *ssa.Function) {
+	c.Rule("C08.runeindex", "in ParseDuration no byte length (len of a string) is added to a position in the rune slice the text was converted to: `µ` is one rune and two bytes, so the component after it would be entered one rune late")
+	n := 0
+	for _, b := range f.Blocks {
+		for _, in := range b.Instrs {
+			add, ok := in.(*ssa.BinOp)
+			if !ok || add.Op != token.ADD || !isIntegerType(add.Type()) {
+				continue
+			}
+			for _, pair := range [][2]ssa.Value{{add.X, add.Y}, {add.Y, add.X}} {
+				call, ok := pair[0].(*ssa.Call)
+				if !ok {
+					continue
+				}
+				bi, ok := call.Call.Value.(*ssa.Builtin)
+				if !ok || bi.Name() != "len" || !isStringType(call.Call.Args[0].Type()) {
+					continue
+				}
+				// is the other operand (or the sum) used as an index into a []rune?
+				indexesRunes := false
+				var uses func(v ssa.Value, d int)
+				seen := map[ssa.Value]bool{}
+				uses = func(v ssa.Value, d int) {
+					if d > 4 || seen[v] || v.Referrers() == nil {
+						return
+					}
+					seen[v] = true
+					for _, ref := range *v.Referrers() {
+						switch r := ref.(type) {
+						case *ssa.IndexAddr:
+							if sl, ok := r.X.Type().Underlying().(*types.Slice); ok && r.Index == v {
+								if bt, ok := sl.Elem().Underlying().(*types.Basic); ok && bt.Kind() == types.Int32 {
+									indexesRunes = true
+								}
+							}
+						case *ssa.Phi:
+							uses(r, d+1)
+						case *ssa.BinOp:
+							uses(r, d+1)
+						}
+					}
+				}
+				uses(add, 0)
+				uses(pair[1], 0)
+				n++
+				key := fmt.Sprintf("ParseDuration: position + len(string) #%d", n)
+				if indexesRunes {
+					c.Bad("C08.runeindex", key, add.Pos(), "a position in the rune slice is advanced by the byte length of a string")
+				} else {
+					c.OK("C08.runeindex", key, add.Pos(), "not used as a rune index")
+				}
+			}
+		}
+	}
+	c.OK("C08.runeindex", "ParseDuration: byte lengths added to positions", f.Pos(), fmt.Sprintf("%d", n))
 }
 
 // digitsC08: the numeric part of a component is read as a decimal 64-bit integer.
